@@ -13,6 +13,7 @@ import (
 	"github.com/basecomplextech/spec/internal/decode"
 	"github.com/basecomplextech/spec/internal/encode"
 	"github.com/basecomplextech/spec/internal/format"
+	"github.com/basecomplextech/spec/internal/verifpoint"
 )
 
 // Writer writes spec objects.
@@ -80,6 +81,7 @@ func newWriter(buf buffer.Buffer, release bool) *writer {
 
 func acquireWriter(buf buffer.Buffer) *writer {
 	w := writerPool.New()
+	verifpoint.Point("pool.writer.get", verifpoint.Ptr(w), verifpoint.B(w.err != nil), 0)
 	w.Reset(buf)
 	w.releaseWriter = true
 	return w
@@ -101,6 +103,7 @@ func (w *writer) Reset(buf buffer.Buffer) {
 	s := w.writerState
 	if s == nil {
 		s = acquireWriterState()
+		verifpoint.Point("pool.writerstate.get", verifpoint.Ptr(s), s.verifDirty(), 0)
 	}
 
 	s.init(buf)
@@ -633,6 +636,7 @@ func (w *writer) failf(format string, args ...any) error {
 func (w *writer) free() {
 	if w.releaseWriter {
 		w.reset()
+		verifpoint.Point("pool.writer.put", verifpoint.Ptr(w), 0, 0)
 		writerPool.Put(w)
 		return
 	}
@@ -662,6 +666,7 @@ func (w *writer) reset() {
 var writerPool = pools.NewPoolFunc(
 	func() *writer {
 		s := acquireWriterState()
+		verifpoint.Point("pool.writerstate.get", verifpoint.Ptr(s), s.verifDirty(), 0)
 		return &writer{writerState: s}
 	},
 )
